@@ -63,13 +63,15 @@ func main() {
 		only := fs.String("h", "", "only these harnesses")
 		maxSec := fs.Int("sec", 0, "time budget override")
 		noReplay := fs.Bool("noreplay", false, "")
+		repoDir := fs.String("repo", "/repo", "repository tree to check (scratch worktrees for seeded-defect evaluation)")
+		tag := fs.String("tag", "", "scratch tag: separate output / evidence location")
 		fs.Parse(os.Args[2:])
 		if *tier == "" {
 			*tier = "quick"
 		}
 		var seed int64
 		fmt.Sscan(os.Getenv("VERIF_SEED"), &seed)
-		cfg := &sym.CheckConfig{Property: *prop, Tier: *tier, Seed: seed, RepoDir: "/repo", VerifDir: "/verif", Workers: *workers, OnlyH: *only, MaxSec: *maxSec, NoReplay: *noReplay}
+		cfg := &sym.CheckConfig{Property: *prop, Tier: *tier, Seed: seed, RepoDir: *repoDir, VerifDir: "/verif", Workers: *workers, OnlyH: *only, MaxSec: *maxSec, NoReplay: *noReplay, Tag: *tag}
 		out := sym.RunCheck(cfg)
 		os.Exit(out.ExitCode)
 	case "refcheck":
